@@ -86,6 +86,7 @@ def leader_msg_arms(cx):
     n = 0
     seen = set()
     kinds = set()
+    shared_role = {}
     for T in ("MsgAppend", "MsgHeartbeat", "MsgSnapshot"):
         for c in cx.prog.all_calls:
             if c.fn.crate != "raft" or c.kind != "call" or c.data["callee"] not in cx.prog.short:
@@ -93,8 +94,17 @@ def leader_msg_arms(cx):
             callee = cx.prog.fn_by_short(c.data["callee"])
             if callee is None or callee.crate != "raft" or callee.impl_adt is None or "raft::Raft" not in callee.impl_adt:
                 continue
+            arm_types = {T}
             if not _in_msg_arm(cx, c, {T}, depth=0):
-                continue
+                # the three kinds of leader traffic may share one arm (the handler then tells them apart itself)
+                LT_ = {"MsgAppend", "MsgHeartbeat", "MsgSnapshot"}
+                if not _in_msg_arm(cx, c, LT_, depth=0):
+                    continue
+                allv_ = cx.facts.variants(MT)
+                pv_ = cx.pg(c.fn).possible_values(c.at, lambda e: e[0] == "field" and e[2] == "Message.msg_type", allv_) if allv_ else set()
+                if T not in pv_:
+                    continue
+                arm_types = set(pv_) & LT_
             args = call_args(cx, c)
             m = [a for a in args[1:] if a[0] == "param" and is_param_of_adt(c.fn, a, "Message")]
             if not m:
@@ -104,6 +114,8 @@ def leader_msg_arms(cx):
                 continue
             m = m[0]
             if (c.fn.key, c.block) in seen:
+                if len(arm_types) > 1 and (c.fn.key, c.block) in shared_role:
+                    kinds.add((T, shared_role[(c.fn.key, c.block)]))
                 continue
             seen.add((c.fn.key, c.block))
             g = cx.pg(c.fn)
@@ -124,6 +136,7 @@ def leader_msg_arms(cx):
                 cx.check(ok1, key + ":timer", "a follower restarts its election timer on every %s from the leader" % T, c)
                 cx.check(ok2, key + ":leader", "a follower records the sender of a %s as its leader" % T, c)
                 kinds.add((T, "follower"))
+                shared_role[(c.fn.key, c.block)] = "follower"
                 n += 1
             elif as_cand:
                 setblocks = {}
@@ -137,7 +150,32 @@ def leader_msg_arms(cx):
                     oka = len(a) >= 3 and a[1] == ("field", m, "Message.term") and a[2] == ("field", m, "Message.from")
                     cx.check(oka, cx.site_key(x, T + ":stepdown-args"), "it follows the sender at the message's term: become_follower(m.term, m.from) (found %s)" % [show(y) for y in a[1:]], x)
                 kinds.add((T, "candidate"))
+                shared_role[(c.fn.key, c.block)] = "candidate"
                 n += 1
+    # a follower arm whose handler was spliced in (no call that is handed the message is left): decided on the arm itself --
+    # in the function that restarts the timer under leader traffic, every path that enters through an edge selecting T
+    # passes both the timer reset and the leader assignment
+    LT_ = {"MsgAppend", "MsgHeartbeat", "MsgSnapshot"}
+    for T in ("MsgAppend", "MsgHeartbeat", "MsgSnapshot"):
+        if (T, "follower") in kinds:
+            continue
+        for w in cx.prog.writes.get("RaftCore.election_elapsed", []):
+            F = w.fn
+            if "stmt" not in w.data or write_value(cx, w) != ("int", 0) or not _in_msg_arm(cx, w, LT_, depth=0):
+                continue
+            gF = cx.pg(F)
+            ezF = {x.block for x in cx.prog.writes.get("RaftCore.election_elapsed", []) if x.fn is F and "stmt" in x.data and write_value(cx, x) == ("int", 0) and _in_msg_arm(cx, x, LT_, depth=0)}
+            lzF = {x.block for x in cx.prog.writes.get("RaftCore.leader_id", []) if x.fn is F and "stmt" in x.data and is_f(write_value(cx, x), "Message.from") and _in_msg_arm(cx, x, LT_, depth=0)}
+            def selects(l, T=T):
+                return l[0] == "in" and l[1][0] == "field" and l[1][2] == "Message.msg_type" and T in l[2] and l[2] <= LT_
+            ok1, n1 = gF.after_edge_must_pass(lambda lits: any(selects(l) for l in lits), lambda b: b in ezF, fresh_only=True)
+            ok2, n2 = gF.after_edge_must_pass(lambda lits: any(selects(l) for l in lits), lambda b: b in lzF, fresh_only=True)
+            if n1 >= 1 and bool(ezF) and bool(lzF):
+                cx.check(ok1, "%s#%s:timer" % (fn_name(F), T), "a follower restarts its election timer on every %s from the leader" % T, w)
+                cx.check(ok2, "%s#%s:leader" % (fn_name(F), T), "a follower records the sender of a %s as its leader" % T, w)
+                kinds.add((T, "follower"))
+                n += 1
+                break
     for T in ("MsgAppend", "MsgHeartbeat", "MsgSnapshot"):
         for role in ("follower", "candidate"):
             cx.check((T, role) in kinds, "arm:%s:%s" % (role, T), "the %s handles %s in an arm of its own" % (role, T))
